@@ -302,6 +302,9 @@ func (w *World) VerifyFunc(fs *FuncSpec) {
 		}
 		n := 0
 		for _, c := range fs.Clauses {
+			if c.Kind == "mapentries" {
+				x.checkMapEntries(s, fi, c)
+			}
 			if c.Kind == "establishes" {
 				// the package initialiser must establish every global invariant of its package
 				for _, gi := range w.GlobalInvs {
@@ -375,6 +378,19 @@ func (x *Exec) paramValue(ty *STy, name string, st *State) (Value, []*Term) {
 		} else {
 			v.Cap = Var(name+".cap", IdxSort)
 			facts = append(facts, BVCmp("bvsle", v.Len, v.Cap), BVCmp("bvsle", v.Cap, BVInt(maxLenFor(ty.Elem), 64)))
+		}
+		if ty.Elem.K == TSlice {
+			// elements of a slice of slices/strings are themselves well-formed, allocated headers
+			k := BoundVar("k", IdxSort, "s64")
+			pos := BVBin("bvadd", v.Off, Mark(k, "s64"))
+			ev, _ := loadElem(st, ty.Elem, v.Reg, pos).(VSlice)
+			z64 := BVInt(0, 64)
+			body := []*Term{BVCmp("bvult", ev.Reg, st.alloc), BVCmp("bvsle", z64, ev.Len), BVCmp("bvsle", z64, ev.Off),
+				BVCmp("bvsle", ev.Off, BVInt(int64(1)<<48, 64)), BVCmp("bvsle", ev.Len, BVInt(int64(1)<<48, 64))}
+			if !ty.Elem.IsStr {
+				body = append(body, BVCmp("bvsle", ev.Len, ev.Cap), BVCmp("bvsle", ev.Cap, BVInt(int64(1)<<48, 64)))
+			}
+			facts = append(facts, Forall([]*Term{k}, Implies(And(BVCmp("bvsle", z64, k), BVCmp("bvslt", k, v.Len)), And(body...))))
 		}
 		return v, facts
 	}
@@ -1274,4 +1290,42 @@ func (l *loopCtx) has(v ssa.Value) bool {
 		return l.hasInstr(in)
 	}
 	return false
+}
+
+// checkMapEntries: "mapentries G (k, v) :: expr" - expr must hold for every entry of the map
+// that the initialiser built and stored into package variable G.
+func (x *Exec) checkMapEntries(st *State, fi *FuncInfo, c *Clause) {
+	txt := strings.TrimSpace(c.Text)
+	sep := strings.Index(txt, "::")
+	if sep < 0 {
+		vfail("%s: mapentries G (k, v) :: expr", c.Line)
+	}
+	hd := strings.Fields(strings.NewReplacer("(", " ", ")", " ", ",", " ").Replace(txt[:sep]))
+	if len(hd) != 3 {
+		vfail("%s: mapentries G (k, v) :: expr", c.Line)
+	}
+	e, err := ParseExpr(txt[sep+2:])
+	if err != nil {
+		vfail("%s: %v", c.Line, err)
+	}
+	g, ok := fi.Fn.Pkg.Members[hd[0]].(*ssa.Global)
+	if !ok {
+		vfail("%s: no package variable %s", c.Line, hd[0])
+	}
+	m, ok := st.globals[g].(*VMap)
+	if !ok {
+		x.oblige(st, "mapentries", "/"+hd[0], "the initialiser stores a map literal into "+hd[0], fi.Fn.Pos(), False)
+		return
+	}
+	x.oblige(st, "mapentries", "/"+hd[0]+"/nonempty", "map "+hd[0]+" has entries", fi.Fn.Pos(), BoolConst(len(m.Keys) > 0))
+	for j := range m.Keys {
+		ev := &Env{W: x.W, st: st, pkg: fi.Fn.Pkg, bound: map[string]SVal{}}
+		ev.bound[hd[1]] = toSVal(m.Keys[j], st)
+		ev.bound[hd[2]] = toSVal(m.Vals[j], st)
+		t, err := ev.EvalBool(e)
+		if err != nil {
+			vfail("%s: entry %d: %v", c.Line, j, err)
+		}
+		x.oblige(st, "mapentries", fmt.Sprintf("/%s#%d", hd[0], j), "entry of "+hd[0]+": "+strings.TrimSpace(txt[sep+2:]), fi.Fn.Pos(), t)
+	}
 }
